@@ -9,7 +9,7 @@ import z3
 
 from .values import (SymVal, CharStr, PyObj, PyList, SymSeq, PyDict, SymMap, PySet, SymSet,
                      ClassObj, BuiltinClass, EnumMember, FuncObj, BoundMethod, StaticMethod,
-                     PropertyObj, ModuleObj, Builtin, ExcObj, Opaque, Computed, SymMat, SymRowRef, Struct, _MISSING)
+                     PropertyObj, ModuleObj, Builtin, ExcObj, Opaque, Computed, SymMat, SymRowRef, Struct, Segment, _MISSING)
 from . import ops
 from .ops import to_term, mk, kind_of, is_num
 
@@ -1141,6 +1141,9 @@ class Interp:
             return False
 
     def seq_eq(self, xs, ys):
+        xs, ys = list(xs), list(ys)
+        if any(isinstance(x, Segment) for x in xs + ys):
+            return self.seg_seq_eq(xs, ys)
         if len(xs) != len(ys):
             return False
         terms = []
@@ -1154,6 +1157,67 @@ class Interp:
         if not terms:
             return True
         return mk(z3.And(*terms), 'bool')
+
+    def seg_seq_eq(self, xs, ys):
+        """sequences with segments: equal when they are the same after dropping empty segments, item by item,
+        segment by segment (same base, offset and length).  Sufficient condition only (sound for proving ==)."""
+        def norm(zs):
+            out = []
+            for z_ in zs:
+                if isinstance(z_, Segment):
+                    if not self.feasible(z_.n > 0):
+                        continue
+                    if out and isinstance(out[-1], Segment) and out[-1].base == z_.base and \
+                            z3.is_true(z3.simplify(out[-1].off + out[-1].n == z_.off)):
+                        p_ = out.pop()
+                        z_ = Segment(p_.base, p_.off, z3.simplify(p_.n + z_.n), p_.elem, p_.tag)
+                out.append(z_)
+            return out
+        xs, ys = norm(xs), norm(ys)
+        # a concrete element next to a segment of the same base may be that segment's neighbour: compare lengths first
+        if len(xs) != len(ys):
+            xs, ys = self.seg_align(xs, ys)
+            if xs is None:
+                return False
+        terms = []
+        for x, y in zip(xs, ys):
+            if isinstance(x, Segment) or isinstance(y, Segment):
+                if not (isinstance(x, Segment) and isinstance(y, Segment)) or x.base != y.base:
+                    return False
+                terms.append(z3.And(x.off == y.off, x.n == y.n))
+            else:
+                r = self.identical_or_equal(x, y)
+                if isinstance(r, bool):
+                    if not r:
+                        return False
+                else:
+                    terms.append(r.t)
+        if not terms:
+            return True
+        return mk(z3.And(*terms), 'bool')
+
+    def seg_align(self, xs, ys):
+        """expand the first element of segments known to be non-empty so that both lists have the same shape"""
+        def expand(zs, other):
+            out = []
+            for i, z_ in enumerate(zs):
+                if isinstance(z_, Segment) and i < len(other) and not isinstance(other[i], Segment) and z_.elem is not None \
+                        and not self.feasible(z3.Not(z_.n > 0)):
+                    out.append(self.seg_elem(z_, z_.off))
+                    rest = Segment(z_.base, z3.simplify(z_.off + 1), z3.simplify(z_.n - 1), z_.elem, z_.tag)
+                    if self.feasible(rest.n > 0):
+                        out.append(rest)
+                else:
+                    out.append(z_)
+            return out
+        for _ in range(4):
+            if len(xs) == len(ys):
+                return xs, ys
+            xs2, ys2 = expand(xs, ys), expand(ys, xs)
+            if len(xs2) == len(xs) and len(ys2) == len(ys):
+                break
+            xs, ys = xs2, ys2
+        return (xs, ys) if len(xs) == len(ys) else (None, None)
 
     def charstr_eq(self, a, b):
         ca = a.chars if isinstance(a, CharStr) else ([ord(c) for c in a] if isinstance(a, str) else None)
@@ -1259,7 +1323,12 @@ class Interp:
         if isinstance(v, (int, float, str, tuple, frozenset)):
             return bool(v)
         if isinstance(v, PyList):
-            return len(v.items) > 0
+            items = self.read_items(v)
+            if any(isinstance(x, Segment) for x in items):
+                if any(not isinstance(x, Segment) for x in items):
+                    return True
+                return z3.simplify(z3.Sum([x.n for x in items]) > 0)
+            return len(items) > 0
         if isinstance(v, PyDict):
             return len(v.d) > 0
         if isinstance(v, PySet):
@@ -1463,6 +1532,8 @@ class Interp:
     def getitem(self, obj, idx):
         if isinstance(obj, PyList):
             items = self.read_items(obj)
+            if any(isinstance(x, Segment) for x in items):
+                return self.seg_getitem(obj, items, idx)
             if isinstance(idx, slice):
                 return PyList(items[self.concrete_slice(idx)])
             return items[self.norm_index(idx, len(items))]
@@ -1545,6 +1616,55 @@ class Interp:
         if obj is None or is_num(obj):
             self.raise_builtin('TypeError', "'%s' object is not subscriptable" % self.typename(obj))
         raise Unsupported('subscript of %r' % (obj,))
+
+    # lists containing Segments: only the two ends are addressable -------------------------------------
+    def seg_elem(self, seg, index_term):
+        if seg.elem is None:
+            raise Unsupported('element of an opaque segment %r' % (seg,))
+        key = (seg.base, str(z3.simplify(index_term)))
+        cache = self.ghost.setdefault('__seg_elems__', {})
+        if key not in cache:
+            cache[key] = seg.elem(self, seg.base, z3.simplify(index_term))
+        return cache[key]
+
+    def seg_getitem(self, lst, items, idx):
+        if isinstance(idx, slice) or not isinstance(idx, int) or idx not in (0, -1):
+            raise Unsupported('index %r into a list with abstract segments' % (idx,))
+        seq = items if idx == 0 else list(reversed(items))
+        for x in seq:
+            if not isinstance(x, Segment):
+                return x
+            nonempty = x.n > 0
+            if self.spec_mode:
+                # specifications index only where the clause guarantees an element: take this segment if it is
+                # the first non-empty one under the path condition
+                if self.feasible(nonempty) and not self.feasible(z3.Not(nonempty)):
+                    return self.seg_elem(x, x.off if idx == 0 else x.off + x.n - 1)
+                if not self.feasible(nonempty):
+                    continue
+                raise Unsupported('spec indexes a list whose first segment may or may not be empty')
+            if self.branch(nonempty, 'segment-nonempty'):
+                return self.seg_elem(x, x.off if idx == 0 else x.off + x.n - 1)
+        self.raise_builtin('IndexError', 'list index out of range')
+
+    def seg_pop(self, lst, left):
+        """pop from the left / right end of a list that may contain segments"""
+        items = lst.items
+        while items:
+            i = 0 if left else len(items) - 1
+            x = items[i]
+            if not isinstance(x, Segment):
+                return items.pop(i)
+            if self.branch(x.n > 0, 'segment-nonempty'):
+                if left:
+                    el = self.seg_elem(x, x.off)
+                    items[i] = Segment(x.base, z3.simplify(x.off + 1), z3.simplify(x.n - 1), x.elem, x.tag)
+                else:
+                    el = self.seg_elem(x, x.off + x.n - 1)
+                    items[i] = Segment(x.base, x.off, z3.simplify(x.n - 1), x.elem, x.tag)
+                return el
+            items.pop(i)
+        self.raise_builtin('IndexError', 'pop from an empty list')
 
     def read_seq(self, s):
         if self.old_mode and self.old_snapshot is not None:
@@ -1670,6 +1790,8 @@ class Interp:
     # iteration ---------------------------------------------------------------
     def iterate(self, v, allow_symbolic=False, where=None):
         if isinstance(v, PyList):
+            if any(isinstance(x, Segment) for x in self.read_items(v)):
+                raise Unsupported('iteration over a list with abstract segments needs a loop invariant (%s)' % self.cur_func_name())
             return list(self.read_items(v))
         if isinstance(v, tuple):
             return list(v)
